@@ -272,6 +272,10 @@ func (h *history) enumerate(res *Result, r *vh.RNG, workers int) {
 		}
 		if cp.equal {
 			res.Count("crash_points_converged", 1)
+			if len(res.Samples) < 2 && cp.survivors > 0 {
+				res.Samples = append(res.Samples, map[string]any{"observation": "crash point converged", "history": h.describe(), "crash_at_batch": cp.k, "of_batches": B, "side": side,
+					"entries_surviving_the_crash": cp.survivors, "chain_head_at_restart": cp.restartAt, "entries_after_restart_and_catch_up": cp.finalCount})
+			}
 			continue
 		}
 		sig := "crash-restart-index-differs:after-first-persisted-batch"
